@@ -6,6 +6,7 @@ import (
 	"fmt"
 	"io"
 	"net/http"
+	"net/url"
 	"sort"
 	"testing"
 
@@ -390,7 +391,21 @@ func checkClientWrite(tt *testing.T, c Case, info *pbt.Info) error {
 		}
 		sc := memnet.NewScript(200, http.Header{"Content-Type": {b.ContentType()}}, nil, nil)
 		sc.FailRequestAfter = k
-		sc.DoErr = opaqueErr{}
+		// how the transport reports the failure varies
+		switch (k + len(b.Msgs)) % 6 {
+		case 0:
+			sc.DoErr = opaqueErr{}
+		case 1:
+			sc.DoErr = &url.Error{Op: "Post", URL: "http://mem.test/x", Err: io.ErrUnexpectedEOF}
+		case 2:
+			sc.DoErr = &url.Error{Op: "Post", URL: "http://mem.test/x", Err: errors.New("stream error: stream ID 7; REFUSED_STREAM; received from peer")}
+		case 3:
+			sc.DoErr = errors.New("stream error: stream ID 9; ENHANCE_YOUR_CALM; received from peer")
+		case 4:
+			sc.DoErr = &url.Error{Op: "Post", URL: "http://mem.test/x", Err: errors.New("net/http: HTTP/1.x transport connection broken: malformed HTTP response \"\\x00\\x00\"")}
+		default:
+			sc.DoErr = &url.Error{Op: "Post", URL: "http://mem.test/x", Err: errors.New("http2: Transport: cannot retry err [http2: Transport received Server's graceful shutdown GOAWAY] after Request.Body was written; define Request.GetBody to avoid this error")}
+		}
 		var res *prog.CResult
 		berr := pbt.Bubble(tt, func() error {
 			cfg := prog.Config{Protocol: b.Protocol, Codec: b.Codec, Kind: b.Kind}
